@@ -533,6 +533,7 @@ struct Env {
     dclean: Vec<bool>,               // per dispatch: no disturbance of the rotation right after it
     dload: Vec<usize>,               // per dispatch: queued + in progress at the target right after the send
     dafterfail: Vec<bool>,           // per dispatch: an earlier send of the same connection failed (a fault was found)
+    davail: Vec<usize>,              // per dispatch: availability bits (by worker index) at the inc yield point
     dmaxload: Vec<usize>,            // per dispatch: largest queued + in progress over all workers right after the send
     faults_at_accept: usize,         // number of fault reports when the connection in hand was accepted
     in_hand: Option<usize>,
@@ -602,6 +603,7 @@ pub struct Snap {
     pub dload: Vec<usize>,
     pub dafterfail: Vec<bool>,
     pub dmaxload: Vec<usize>,
+    pub davail: Vec<usize>,
     pub inprog: Vec<Vec<usize>>,
     pub finished: Vec<usize>,
     pub uds_path: Vec<bool>,
@@ -968,8 +970,13 @@ impl Env {
             "inc" => {
                 // rotation disturbed right after this dispatch? (a handle marked unavailable, a worker at
                 // the limit, or not all workers in the rotation)
-                let nh = arg >> 1;
+                let nh = (arg & 0xffff) >> 1;
                 let any_false = arg & 1 == 1;
+                // the accept thread's availability bits right after this dispatch (the bits of the OTHER workers are the
+                // ones the rotation saw when it chose the target)
+                while self.davail.len() < self.dispatched.len() {
+                    self.davail.push(arg >> 16);
+                }
                 let loaded = (0..self.cfg.workers).any(|i| self.load(i) >= self.cfg.limit);
                 if any_false || nh != self.cfg.workers || loaded {
                     self.mark_last_dispatch_dirty();
@@ -1079,6 +1086,7 @@ impl Sim {
             dload: vec![],
             dafterfail: vec![],
             dmaxload: vec![],
+            davail: vec![],
             faults_at_accept: 0,
             in_hand: None,
             points: vec![],
@@ -1320,6 +1328,7 @@ impl Sim {
         s.dload = e.dload.clone();
         s.dafterfail = e.dafterfail.clone();
         s.dmaxload = e.dmaxload.clone();
+        s.davail = e.davail.clone();
         s.in_hand = e.in_hand.map(|c| c as i64).unwrap_or(-1);
         s.inprog = vec![vec![]; n];
         {
